@@ -43,6 +43,7 @@ type srvCfg struct {
 	largePct   int  // % of requests (hence echoed answers) larger than the 1 KiB pooled write buffer
 	lazyResume bool // stalled writes are resumed reluctantly, so that several pile up
 	malformedOnly []int // restrict undecodable messages to these kinds (indexes into malformedKinds)
+	idxRegs    bool // besides the catch-all, exact-index handlers for some commands (every message still has a handler)
 	nilHandler bool // the Server (and dialled connections) get a nil Handler: diam.DefaultServeMux serves
 	tlsStall   bool // one more peer connects over TLS and never gets through its handshake
 	force      *srvForce // enumerated fault placement (sweep)
@@ -641,6 +642,16 @@ func (w *srvWorld) runInner() {
 		}
 	} else {
 		w.register("all", 0, 0, false, "")
+		if cfg.idxRegs {
+			for _, c := range simCmds {
+				for _, req := range []bool{true, false} {
+					if t.Chance(1, 2) {
+						w.register("idx", c.App, c.Code, req, "")
+					}
+				}
+			}
+			w.e.Probe("index-registrations-beside-catch-all")
+		}
 		if cfg.extraReg {
 			w.extraRegLeft = t.Draw(4)
 		}
@@ -1067,7 +1078,7 @@ func (w *srvWorld) quiesceAndCheck() bool {
 }
 
 func (w *srvWorld) expectHandler(sm *sentMsg) string {
-	if !w.cfg.table {
+	if !w.cfg.table && !w.cfg.idxRegs {
 		return w.regs.all
 	}
 	return w.regs.sel(sm.ref.App, sm.ref.Cmd, sm.ref.Flags&0x80 != 0)
@@ -1134,7 +1145,7 @@ func (w *srvWorld) expectHandlerAt(sm *sentMsg, ver int) string {
 	// The engine changes the table only when no handler is active and the system
 	// is quiescent, so every invocation observed the table current at that time;
 	// invocations record the version and the world keeps past tables.
-	if !w.cfg.table {
+	if !w.cfg.table && !w.cfg.idxRegs {
 		return w.regs.all
 	}
 	if r, ok := w.regHist[ver]; ok && ver != w.regVer {
